@@ -115,6 +115,19 @@ def cases(tier, seed):
         out.append(dict(kind='perm-history', cfg=rng.choice(cfgs2), route='reentrant', op=op, arity=2, perms=perms, kb=[0, 3], permute_b=True))
     for op in UN_OPS[:7]:
         out.append(dict(kind='perm-history', cfg=rng.choice(cfgs2), route='reentrant', op=op, arity=1, perms=[[0, 3], [3, 0]]))
+    # --- swapped operands: op(a, b) then op(b, a) on one algebra (a result must never be derived from the
+    #     cache entry / table entry of the mirrored call), incl. d = 7 where the sign table is filled lazily
+    for cfg in cfgs2 + [dict(p=3), dict(p=2, r=1), dict(p=7), dict(p=4, q=2, r=1)]:
+        d = sum(cfg.values())
+        order = pat.canon_order(d, 0 if cfg.get('r') == 1 else 1)
+        grades = [[k for k in order if bin(k).count('1') == g][:4] for g in range(min(d, 4) + 1)]
+        for op in BIN_OPS[:11]:
+            for _ in range(2 if tier == 'quick' else 8):
+                ga, gb = rng.sample(range(len(grades)), 2)
+                ka, kb = list(grades[ga]), list(grades[gb])
+                if rng.random() < 0.5:
+                    ka = [rng.choice(grades[ga]), rng.choice(grades[gb])]
+                out.append(dict(kind='swap-history', cfg=cfg, op=op, ka=ka, kb=kb, route=rng.choice(['plain', 'plain', 'wrapper'])))
     # --- operator sweeps: EVERY operator on the same operands, then every one again (two operators must
     #     never share a generated-function name)
     for route in ('wrapper', 'register'):
@@ -194,6 +207,8 @@ def run_case(desc, V):
         return _run_sweep(desc, V)
     if desc['kind'] == 'name-classes':
         return _run_names(desc, V)
+    if desc['kind'] == 'swap-history':
+        return _run_swap(desc, V)
     if desc['kind'] == 'flaky-wrapper':
         return _run_flaky(desc, V)
     return _run_mixed(desc, V)
@@ -228,6 +243,32 @@ def _run_names(desc, V):
             r = _call(alg, 'wrapper', op, ar, args, {})
             want = _fresh_result(desc['cfg'], op, ar, args)
             claims += mv_eq_claims(f'{name}:{A}/{B}#{j}', r, coeffs(want), fkey='name-classes|shared-name-not-equivalent')
+    return claims
+
+
+def _run_swap(desc, V):
+    cfg = dict(desc['cfg'])
+    route = desc['route']
+    if route == 'wrapper':
+        cfg['wrapper'] = 'closure'
+    alg = make_alg(cfg)
+    op = desc['op']
+    a, b = mv(alg, V, 'a', desc['ka']), mv(alg, V, 'b', desc['kb'])
+    claims = []
+    snaps = _snapshot([a, b])
+    for i, args in enumerate(([a, b], [b, a], [a, b], [b, a])):
+        try:
+            want = _fresh_result(desc['cfg'], op, 2, args)
+        except ZeroDivisionError:
+            continue
+        try:
+            r = _call(alg, route, op, 2, args, {})
+        except ZeroDivisionError:
+            claims.append(Fail(f'raise-mismatch[{i}]', 'history raised ZeroDivisionError, fresh algebra returned', fkey='swap-history|raise'))
+            continue
+        claims += mv_eq_claims(f'call[{i}]', r, coeffs(want), fkey=f'swap-history|route={route}')
+    claims += _unchanged_claims('swap', snaps)
+    claims.append(Eq('reached', 1, 1))
     return claims
 
 
